@@ -408,7 +408,13 @@ def oracleC12 (s : SyncCase) : Option String :=
   -- parallel per-revision calls: when some fail and another answers 429, which one is reported depends on revision order
   orElse (check (hookFail.isEmpty || !h429.isEmpty || s.outcome == "error") "a hook call failed but the sync did not report an error") fun _ =>
   if !h429.isEmpty && hookFail.isEmpty && hard.isEmpty then
-    if s.composite then check (s.outcome == "ok" && !s.after.isEmpty) "a 429 from the hook was not turned into a delayed requeue"
+    if s.composite then
+      orElse (check (s.outcome == "ok" && !s.after.isEmpty) "a 429 from the hook was not turned into a delayed requeue") fun _ =>
+      -- ... after the advertised delay (judged when a single call was answered 429)
+      match h429 with
+      | [h] => check (s.after.contains (h.hookRetryAfter * 1000))
+          s!"the hook answered 429 with Retry-After {h.hookRetryAfter} s, but the parent was requeued after {s.after} ms"
+      | _ => none
     else check (s.outcome == "error") "decorator: a 429 from the hook must be reported as an error"
   else none
 
